@@ -44,6 +44,9 @@ func checkC01(c *Ctx, r *Report) {
 	// copies it; the user's action runs in between and may start a nested parse (PushContex … Parser … PopContex)
 	// whose reductions go through the same ReduceFunc: the entry must be storage of this reduction alone (C07.b)
 	includeSome(r, "C01.e", func(sub *Report) { checkC07(c, sub) }, "fresh-$$-entry", "$$-only-the-action-fills-it")
+	// the accept code is a cell value like the shift targets: it stands for "accept" only if no state number can
+	// equal it (C06.b: number of states + a positive constant, different from the error code)
+	includeSome(r, "C01.e", func(sub *Report) { c06b(c, sub) }, "GenAcceptCode", "GenErrorCode")
 }
 
 func c01a(c *Ctx, r *Report, st *Staged) {
